@@ -50,6 +50,8 @@ BX_WHY = {
                  'unit rtlsdr, which proves that output k depends on bytes 2k, 2k+1 only); this run pushes EVERY byte value through the '
                  'real code as I and as Q and compares bit-exactly with (b - 127) * 0.008: exhaustive over the value domain, bounded '
                  'over schedules',
+    'bx:totext': 'ToText::work walks a Vec of input streams with iter_mut(), a labelled break with a value and String formatting: outside '
+                 'the extractable subset; bounded differential check of the real code (same text one-shot and drip-fed over two inputs)',
     'bx:dsp': 'floating-point blocks: no verifier here has a float theory and most of these bodies are iterator/FFT code; bounded '
               'differential check of the real code (a roomy run and an adversarial drip-fed run of the same input must give '
               'bit-identical output; one-to-one blocks must deliver each tag once at the same index)',
